@@ -76,7 +76,7 @@ CLAIMED = {
              "the neighbouring stored entries exactly and Down past the newest restores the typed line. The composition of these "
              "steps over whole key sequences with edits in between is the model's main loop, tied to the code by the recall "
              "stream and judged by the reference-walk oracle.",
-        note=TTY_NOTE + "Default history back end.",
+        note=TTY_NOTE + "Theorems and model correspondence: default history back end; the SQLite back end is walked by the same editor in the sqlwalk stream (reference-walk oracle).",
         technique="Coq proof: 'keeps the history field' calculus over the editor monad with fuel induction for every loop; symbolic execution of the recall steps; induction over the index walk; loop invariants of the line-up / line-down scans; a second 'keeps' calculus for position and saved line; extracted-model differential check through a pty + reference-walk oracle"),
     "C08": dict(
         text="Theorems over the search loop of the editor model (one key, arbitrary continuation) on top of C09's search theorems: "
@@ -87,7 +87,7 @@ CLAIMED = {
              "the text without searching; Ctrl-G restores exactly the line and cursor from before the search; any other command "
              "leaves the shown entry as the line, untouched, and is handed to the main loop. PARTIAL: whole search sessions "
              "(composition, the prompt, undo afterwards) by the correspondence and the reference-search oracle.",
-        note=TTY_NOTE + "Default history back end.",
+        note=TTY_NOTE + "Theorems and model correspondence: default history back end; the SQLite back end is walked by the same editor in the sqlwalk stream (reference-walk oracle).",
         technique="Coq proof: symbolic execution of the search branch per key + C09 nearest-match theorems; extracted-model differential check through a pty + reference-search oracle"),
     "C14": dict(
         text="Theorems over the completion loop of the editor model, for every completer answer (start offset, candidates), text "
